@@ -14,7 +14,10 @@ GenInitList == [i \in 1..Cardinality(Keys) |-> i]
 \* senders: 1 A (v4 non-DNS target)  2 B (v4 port 53 target)  3 forbidden destination  4 C (v6 non-DNS target)
 \*          5 D (v6 port 53 target)  6 other port of A's host  7 stranger (v4)  8 stranger on port 53
 \*          9 stranger bound to the zoned link-local address  10 E (public v4 target on eth0)
-GenFam == [s \in Senders |-> IF s \in {4, 5, 13} THEN "v6" ELSE IF s = 9 THEN "zoned" ELSE "v4"]
+\*          16 localhost:pA' (the NAME of 11, the port of 6)  17 alt.verif.test:pA' (a name as long as 12's, -> A2)
+\*          18 C2 (another port of C's host, v6)
+GenFam == [s \in Senders |-> IF s \in {4, 5, 13, 18} THEN "v6" ELSE IF s = 9 THEN "zoned"
+                              ELSE IF s \in {11, 16} THEN "name9" ELSE IF s \in {12, 17} THEN "name14" ELSE "v4"]
 D(c, k, hdr, dst, cls) == [c |-> c, k |-> k, hdr |-> hdr, dst |-> dst, cls |-> cls]
 R(s, cls) == [s |-> s, cls |-> cls]
 \* 14 = a loopback address with port 0, 15 = the public address with port 0: allowed by the validator, but the outbound
@@ -54,9 +57,36 @@ GenRpFocus == {R(s, cls) : s \in {1, 2, 6}, cls \in {"0", "1"}} \cup {R(1, "fit1
 GenDgVirtMid == {D(1, 1, TRUE, 2, "1"), D(1, 1, TRUE, 3, "1"), D(1, 1, TRUE, 1, "1"), D(2, 1, TRUE, 3, "1")}
 GenRpVirtMid == {R(1, "1"), R(1, "0")}
 GenMidVirtMid == {R(2, "1"), R(8, "1")}
+\* target switches INSIDE one association (real sockets, validator = loopback + public): each client sends only under its own
+\* key, so every datagram after the first travels the known-association path of Handle; the destinations come in groups
+\* whose SOCKS address headers have the SAME length and differ in the address and/or the port only:
+\*   7 bytes: 1 (127.0.0.1:pA)  6 (127.0.0.1:pA', same IP other port)  10 (192.0.2.2:pE, other IP)
+\*  19 bytes: 4 ([::1]:pC)  18 ([::1]:pC', same IP other port)
+\*  13 bytes: 11 (localhost:pA)  16 (localhost:pA', same name other port)
+\*  18 bytes: 12 (pub.verif.test:pE)  17 (alt.verif.test:pA', other name of equal length)
+\* No idle periods (Ticks = {} in the cfg): the association lives through the whole behaviour (A,A,B / A,B,A / A,B,B,A ...).
+\* The verdict is the property layer's FwdToNamed / FwdAuthentic / FwdOnce / FwdComplete on what the targets received.
+GenDgSwitch == {D(c, c, TRUE, dst, cls) : c \in Clients, dst \in {1, 6, 10, 4, 18, 11, 16, 12, 17}, cls \in {"0", "1", "1000"}}
+GenRpSwitch == {R(s, "1") : s \in {1, 6, 10}}
+\* a switch: the j-th (j >= 3) well-formed datagram of client c under its key names another destination than the one before
+\* it, with an address header of the same length (what a per-association "last target" shortcut would get wrong)
+DgsOf(c) == SelectSeq(tr, LAMBDA x : x.a = "CDgram" /\ x.c = c)
+SwitchesOf(c) == LET s == DgsOf(c) IN
+                   {j \in 3..Len(s) : s[j].dst # s[j-1].dst /\ HdrLen(s[j].dst) = HdrLen(s[j-1].dst)}
+NSwitches == LET RECURSIVE Sum(_)
+                 Sum(S) == IF S = {} THEN 0 ELSE LET c == CHOOSE c \in S : TRUE IN Cardinality(SwitchesOf(c)) + Sum(S \ {c})
+             IN Sum(Clients)
 GenInit == Init /\ done = FALSE /\ kind = 0
 NEnv == Len(tr)
-EnvC == \E x \in DgAlpha : ClientSend(x.c, x.k, x.hdr, x.dst, x.cls)
+\* steering of the switch family only: a client mostly stays within the group of destinations whose address header is as long
+\* as that of its previous datagram (it leaves the group with the "1000" datagrams only), so that most of its datagrams from the
+\* third on ARE switches between same-length headers; the other families are not restricted
+SwitchFamily == DgAlpha = GenDgSwitch
+\* (IF, not \/: TLC splits a disjunction inside an action into alternatives and evaluates every one of them)
+Steer(x) == IF ~SwitchFamily THEN TRUE
+            ELSE LET s == DgsOf(x.c) IN
+                   IF Len(s) = 0 \/ x.cls = "1000" THEN TRUE ELSE HdrLen(x.dst) = HdrLen(s[Len(s)].dst)
+EnvC == \E x \in DgAlpha : Steer(x) /\ ClientSend(x.c, x.k, x.hdr, x.dst, x.cls)
 EnvS == \E x \in RpAlpha, a \in 1..MaxAssoc : SenderSend(x.s, a, x.cls)
 EnvT == \E d \in Ticks : Tick(d)
 KindOf(n) == IF n <= 9 THEN "C" ELSE IF n <= 15 THEN "S" ELSE IF n <= 19 THEN "T" ELSE "X"
@@ -78,5 +108,7 @@ Finish == ~done /\ kind = 0 /\ Quiet /\ (NEnv >= GenLen \/ h.pc = "returned") /\
 GenNext == PickKind \/ EnvStep \/ Internal \/ Finish
 GenSpec == GenInit /\ [][GenNext]_<<vars, done, kind>>
 DumpInv == done => PrintT(<<"BEH", ToJson(tr)>>)
+\* (switch family) how many target switches of the kind described at GenDgSwitch the finished behaviour contains
+DumpSw == done => PrintT(<<"SWITCHES", NSwitches>>)
 NoMid == {}
 =============================================================================
